@@ -23,7 +23,8 @@ ACCEPT = [
     'SELECT b, d, sum(a) FROM #t WHERE a = 1 GROUP BY b, d PIVOT BY b, d', 'SELECT b, d, sum(a) FROM #t WHERE a = 1 GROUP BY 1, 2 PIVOT BY 1, 2',
     'SELECT a FROM #t WHERE a > %s', 'SELECT o > 1 FROM #t', 'SELECT length(b) FROM #t', 'SELECT a FROM #t LIMIT 0', 'SELECT DISTINCT a FROM #t',
     'SELECT * FROM #t', 'SELECT 1', 'SELECT a FROM #t WHERE b ~ "x"', 'SELECT a FROM (SELECT a FROM #t)',
-    'SELECT b, d, sum(a) FROM #t GROUP BY b, d PIVOT BY b, d', 'SELECT d, b, count(*) FROM #t GROUP BY 1, 2 PIVOT BY 1, 2',   # both rows: NULL pivot values
+    'SELECT b, d, sum(a) FROM #t GROUP BY b, d PIVOT BY b, d', 'SELECT d, b, count(*) FROM #t GROUP BY 1, 2 PIVOT BY 1, 2',
+    "SELECT coalesce('n/a', b) FROM #t", 'SELECT coalesce(1 + 1, a) FROM #t',   # both rows: NULL pivot values
     'SELECT a, sum(c) FROM #t GROUP BY a, a', 'SELECT a, b, sum(c) FROM #t GROUP BY a, b, a', 'SELECT a, sum(c) FROM #t GROUP BY 1, a',
     'SELECT a FROM #t WHERE a IN (SELECT a FROM #t WHERE a IN (SELECT a FROM #t))', 'SELECT a FROM (SELECT a FROM (SELECT a FROM #t))',
 ]
@@ -51,7 +52,8 @@ REJECT = [
     'SELECT b, d, sum(a) FROM #t GROUP BY b, d PIVOT BY b, b', 'SELECT b, d, sum(a) FROM #t GROUP BY b, d PIVOT BY 1, 1', 'SELECT b, d, sum(a) FROM #t GROUP BY b, d PIVOT BY b, zz',
     'SELECT b, d, sum(a) AS s FROM #t GROUP BY b, d PIVOT BY b, s', 'SELECT a, b FROM #t PIVOT BY a, b', 'SELECT a, b FROM #t PIVOT BY 1, 2',
     # clause specific
-    'SELECT coalesce(a, b) FROM #t', 'SELECT coalesce() FROM #t', 'SELECT b, sum(a) FROM #t GROUP BY b HAVING count(*) > a', 'SELECT b, sum(a) FROM #t GROUP BY b HAVING sum(a) > length(b)', 'SELECT a FROM #t WHERE a IN (SELECT a, b FROM #t)', 'SELECT 1 IN 2 FROM #t', 'SELECT a IN b FROM #t', 'SELECT a NOT IN 3 FROM #t',
+    'SELECT coalesce(a, b) FROM #t', 'SELECT coalesce() FROM #t', "SELECT coalesce('n/a', a) FROM #t", 'SELECT coalesce(1 + 1, a, d) FROM #t', 'SELECT a FROM #t WHERE coalesce(TRUE, b)',
+    "SELECT coalesce(2024-01-01, b) FROM #t", 'SELECT coalesce(NULL, a, b) FROM #t', 'SELECT b, sum(a) FROM #t GROUP BY b HAVING count(*) > a', 'SELECT b, sum(a) FROM #t GROUP BY b HAVING sum(a) > length(b)', 'SELECT a FROM #t WHERE a IN (SELECT a, b FROM #t)', 'SELECT 1 IN 2 FROM #t', 'SELECT a IN b FROM #t', 'SELECT a NOT IN 3 FROM #t',
     'SELECT a, sum(c) FROM #t GROUP BY o', 'SELECT a FROM #t WHERE a > %s AND b = %(x)s',
     # syntax
     'SELECT', 'SELECT a FROM', 'SELECT a FROM #t WHERE', 'SELEC a', 'SELECT a,, b FROM #t', 'SELECT (a FROM #t', 'SELECT a FROM #t ORDER', 'SELECT a FROM #t LIMIT x',
